@@ -531,6 +531,68 @@ pub fn run(tier: Tier) -> Run {
             run.add(viol("C09:concurrent-steady-state", format!("{} of {} lookups made by 16 threads at the same time returned the entry of another number (or none)", w, n), json!({"kind": "c09-concurrent"})));
         }
     }
+    // lookups made WHILE A THREAD EXITS (from the destructor of a thread-local of the caller): the tables are static data, so a
+    // lookup there must answer like anywhere else. Enumerated: {guard first touched before / after the thread's first lookups}
+    // x {each table} x every declared number; a panic inside the destructor is caught there (it would abort the process).
+    {
+        use std::sync::{Arc, Mutex};
+        type Log = Arc<Mutex<Vec<String>>>;
+        struct Guard(Option<(Log, Vec<(u32, String)>, Vec<(u32, String)>, Vec<(u16, String)>)>);
+        impl Drop for Guard {
+            fn drop(&mut self) {
+                if let Some((log, cl, gl, co)) = self.0.take() {
+                    let r = std::panic::catch_unwind(std::panic::AssertUnwindSafe(|| {
+                        let mut bad = vec![];
+                        for (num, name) in &cl {
+                            if g::OpenCLStd100InstructionTable::lookup_opcode(*num).map(|e| e.opname) != Some(name.as_str()) { bad.push(format!("OpenCL.std:#{}", num)); }
+                        }
+                        for (num, name) in &gl {
+                            if g::GlslStd450InstructionTable::lookup_opcode(*num).map(|e| e.opname) != Some(name.as_str()) { bad.push(format!("GLSL.std.450:#{}", num)); }
+                        }
+                        for (num, name) in &co {
+                            if g::CoreInstructionTable::lookup_opcode(*num).map(|e| e.opname) != Some(name.as_str()) { bad.push(format!("core:#{}", num)); }
+                        }
+                        bad
+                    }));
+                    let mut l = log.lock().unwrap_or_else(|e| e.into_inner());
+                    match r {
+                        Ok(bad) => { for b in bad.into_iter().take(3) { l.push(format!("wrong:{}", b)); } l.push("done".into()); }
+                        Err(_) => l.push(format!("panic:{}", crate::report::LAST_PANIC_ANYWHERE.lock().ok().and_then(|g| g.clone()).unwrap_or_default())),
+                    }
+                }
+            }
+        }
+        thread_local! { static TEARDOWN_GUARD: std::cell::RefCell<Guard> = const { std::cell::RefCell::new(Guard(None)) }; }
+        let cl: Vec<(u32, String)> = gd.opencl.iter().map(|e| (e.opcode, e.name.clone())).collect();
+        let gl: Vec<(u32, String)> = gd.glsl.iter().map(|e| (e.opcode, e.name.clone())).collect();
+        let co: Vec<(u16, String)> = gd.insts.iter().map(|e| (e.opcode, e.name.clone())).collect();
+        for guard_first in [true, false] {
+            let log: Log = Arc::new(Mutex::new(vec![]));
+            let (l2, cl2, gl2, co2) = (log.clone(), cl.clone(), gl.clone(), co.clone());
+            let touch = |c: &[(u32, String)], g_: &[(u32, String)], o: &[(u16, String)]| {
+                let _ = g::OpenCLStd100InstructionTable::lookup_opcode(c[0].0);
+                let _ = g::GlslStd450InstructionTable::lookup_opcode(g_[0].0);
+                let _ = g::CoreInstructionTable::lookup_opcode(o[0].0);
+            };
+            let h = std::thread::spawn(move || {
+                if !guard_first { touch(&cl2, &gl2, &co2); }
+                let (c3, g3, o3) = (cl2.clone(), gl2.clone(), co2.clone());
+                TEARDOWN_GUARD.with(|g_| *g_.borrow_mut() = Guard(Some((l2, cl2, gl2, co2))));
+                if guard_first { touch(&c3, &g3, &o3); }
+            });
+            let _ = h.join();
+            let l = log.lock().unwrap_or_else(|e| e.into_inner()).clone();
+            evals += (cl.len() + gl.len() + co.len()) as u64;
+            run.outcome("lookups_during_thread_teardown", (cl.len() + gl.len() + co.len()) as u64);
+            for e in l.iter().filter(|e| e.as_str() != "done") {
+                let kind = if e.starts_with("panic") { "panic" } else { "wrong" };
+                run.add(viol(format!("C09:thread-teardown:{}", kind), format!("lookups made from a thread-local destructor while the thread exits (guard first touched {} the thread's first lookups): {}", if guard_first { "before" } else { "after" }, e), json!({"kind": "c09-thread-teardown", "guard_first": guard_first})));
+            }
+            if l.is_empty() {
+                run.add(viol("C09:thread-teardown:no-answer", "the thread-local destructor making the lookups did not report (process-level failure during thread exit)".to_string(), json!({"kind": "c09-thread-teardown", "guard_first": guard_first})));
+            }
+        }
+    }
     // interleaved lookups: the same number through one table, then the other, then the first again
     for n in (0..=0xFFFFu32).chain([0x1_0000, 0x1_001F, u32::MAX]) {
         evals += 3;
